@@ -24,6 +24,7 @@ def build(reg, cfg=None):
     reg.add(M.check_winding_contract(PROP))
     reg.add(M.can_be_merged_contract(PROP))
     reg.add(M.replace_node_body_contract(PROP))      # merges: the walk around the removed node keeps the orientation of every face
+    reg.add(M.refine_prologue_contract(PROP))
     # split_edge(topology) - the full callee contracts with their preconditions at every call site - is kept in meshops.py but not
     # registered: 8 of its 209 obligations stayed undecided within the thorough budgets (see DESIGN 10.4)
     M.split_lemmas(reg, PROP)
